@@ -339,6 +339,19 @@ func c01Hazards(c *fw.Ctx) {
 		}
 	}
 	c.State("built-ins on text that is not ASCII")
+	// indices at and beyond the edges of every integer type, read and written, on arrays, strings and objects, literal and from the input
+	idx := []string{"10000000000000000000", "-10000000000000000000", "9223372036854775807", "-9223372036854775808", "9223372036854775808", "4294967296", "-4294967296", "2147483648", "-2147483649", "1e308", "-1e308", "0.5", "-0.5", "$.big", "-$.big", "num(\"inf\")", "(-num(\"inf\"))", "num(\"nan\")"}
+	for _, i := range idx {
+		i = strings.ReplaceAll(strings.ReplaceAll(i, "1e308", "$.huge"), "-$.huge", "(-$.huge)")
+		for _, base := range []string{"a", "s", "o", "$.a", "e"} {
+			for _, body := range []string{"print B[I]", "B[I] = 1; print B", "B[I]++; print B", "print B[I][I]", "B[I].k = 2; print B", "B.push(B[I]); print B", "x = B[I]; x = 5; print B, x"} {
+				prog := "{ a = [1, 2, 3]; s = \"abc\"; o = {k: 1}; " + strings.ReplaceAll(strings.ReplaceAll(body, "B", base), "I", i) + " }"
+				s := c01Spec{Form: "text", Program: prog, Data: `{"a":[1,2,3],"big":1e19,"huge":1e308}`, HasData: true, Fuzzing: true}
+				c.Do(func() any { return s }, func() *fw.Violation { return c01RunOne(c, s) })
+			}
+		}
+	}
+	c.State("indices beyond every integer type")
 }
 
 func c01CLI(c *fw.Ctx, s c01Spec) *fw.Violation {
